@@ -309,6 +309,29 @@ def cargo_build(profile):
     return os.path.join(TARGET, "release" if profile == "release" else "debug", "cvharness")
 
 
+def cargo_build_asan():
+    """C20, thorough tier: the harness and constriction compiled by the nightly toolchain with
+    AddressSanitizer, release profile (no debug assertions: an out-of-bounds access behind
+    get_unchecked is then seen by ASan instead of std's precondition checks).  std itself is the
+    pre-built, uninstrumented one; the allocator is ASan's.  Returns None when no nightly toolchain
+    with the sanitizer runtime is installed (recorded in the evidence)."""
+    tgt = TARGET + "-asan"
+    with Lock("cargo"):
+        toml = os.path.join(HARNESS, "Cargo.toml")
+        txt = open(toml).read()
+        want = 'constriction = { path = "%s" }' % REPO
+        cur = re.search(r'constriction = \{ path = "[^"]*" \}', txt)
+        if cur and cur.group(0) != want:
+            open(toml, "w").write(txt.replace(cur.group(0), want))
+        rc, out = sh(["cargo", "+nightly", "build", "--offline", "--release", "--target", "x86_64-unknown-linux-gnu"],
+                     3000, cwd=HARNESS,
+                     env={"CARGO_TARGET_DIR": tgt,
+                          "RUSTFLAGS": "-Zsanitizer=address --cfg constriction_verif"})
+    if rc != 0:
+        return None
+    return os.path.join(tgt, "x86_64-unknown-linux-gnu", "release", "cvharness")
+
+
 def _run_harness_shard(binary, path, n_lines, per_case_timeout):
     """Runs one shard with a per-case watchdog; restarts after an abort or hang.
     Returns {id: output-list}."""
